@@ -13,6 +13,17 @@ the same coding); the Rust side uses the real types and its `{:?}` output is dec
   set         Set<u32>                      bit mask          (elements < 16)
   bset        BoundedSet<2, u32>            TOP -> -1, else bit mask with at most 2 bits
   cp          ConstPropagation<u32>         Bottom -> -1, Top -> -2, Constant(n) -> n
+  composite types (several components, each < 64; join_mut has to move several components in one call), and the
+  wrappers that delegate to them - table COMPOSITE below, Coq side coq/LatEngine/LatVocabArr.v:
+  arr2        Product<[u32; 2]>             a * 64 + b        (both upwards)
+  arr3        Product<[u32; 3]>             a * 4096 + b * 64 + c
+  darr2       Dual<Product<[u32; 2]>>       a * 64 + b        (order reversed: join_mut = the array's meet_mut)
+  oarr2       Option<Product<[u32; 2]>>     None -> 0, Some(v) -> code(v) + 1
+  arrd2       Product<[Dual<u32>; 2]>       a * 64 + b        (both downwards)
+  prod3       Product<(u32, Dual<u32>, u32)>  a * 4096 + b * 64 + c   (up, down, up)
+  rcarr2      Rc<Product<[u32; 2]>>         a * 64 + b
+  boxarr2     Box<Product<[u32; 2]>>        a * 64 + b
+  revarr2     Reverse<Product<[u32; 2]>>    a * 64 + b        (order reversed)
 
 Symbols: name -> (coq id, arity, rust template with $0 $1 .. = argument VALUE expressions (already dereferenced
 and parenthesised), python function on codes).  Ids < 200 are the plain vocabulary of gen/dl.py / Engine/Vocab.v.
@@ -36,6 +47,67 @@ LTYPES = {
     "bset": (7, "ascent::lattice::bounded_set::BoundedSet<2, u32>"),
     "cp": (8, "ascent::lattice::constant_propagation::ConstPropagation<u32>"),
 }
+
+# ------------------------------------------------------------------ composite types
+CAP = 9          # components never exceed CAP (every composite operation saturates there)
+_P = "ascent::lattice::Product"
+# name: (type id, rust type, directions of the components (+1 upwards / -1 downwards), optional?,
+#        constructor of the NON-optional part from component expressions {0} {1} .., component accessors on a value {v})
+# the ORDER of this table is the composite number k of LatVocabArr.v cty (function ids 500 + 10 k + op, predicate ids 600 + 10 k + op)
+COMPOSITE = {
+    "arr2": (9, _P + "<[u32; 2]>", (1, 1), False, _P + "([{0}, {1}])", ["{v}.0[0]", "{v}.0[1]"]),
+    "arr3": (10, _P + "<[u32; 3]>", (1, 1, 1), False, _P + "([{0}, {1}, {2}])", ["{v}.0[0]", "{v}.0[1]", "{v}.0[2]"]),
+    "darr2": (11, "ascent::Dual<" + _P + "<[u32; 2]>>", (-1, -1), False, "ascent::Dual(" + _P + "([{0}, {1}]))", ["{v}.0.0[0]", "{v}.0.0[1]"]),
+    "oarr2": (12, "Option<" + _P + "<[u32; 2]>>", (1, 1), True, _P + "([{0}, {1}])", ["{v}.0[0]", "{v}.0[1]"]),
+    "arrd2": (13, _P + "<[ascent::Dual<u32>; 2]>", (-1, -1), False, _P + "([ascent::Dual({0}), ascent::Dual({1})])", ["{v}.0[0].0", "{v}.0[1].0"]),
+    "prod3": (14, _P + "<(u32, ascent::Dual<u32>, u32)>", (1, -1, 1), False, _P + "(({0}, ascent::Dual({1}), {2}))", ["{v}.0.0", "{v}.0.1.0", "{v}.0.2"]),
+    "rcarr2": (15, "std::rc::Rc<" + _P + "<[u32; 2]>>", (1, 1), False, "std::rc::Rc::new(" + _P + "([{0}, {1}]))", ["{v}.0[0]", "{v}.0[1]"]),
+    "boxarr2": (16, "Box<" + _P + "<[u32; 2]>>", (1, 1), False, "Box::new(" + _P + "([{0}, {1}]))", ["{v}.0[0]", "{v}.0[1]"]),
+    "revarr2": (17, "std::cmp::Reverse<" + _P + "<[u32; 2]>>", (-1, -1), False, "std::cmp::Reverse(" + _P + "([{0}, {1}]))", ["{v}.0.0[0]", "{v}.0.0[1]"]),
+    # part 1's tuple product (same Rust type and code as 'prod') with the component-wise vocabulary; a separate name, so
+    # that the programs the other ties (C02 / C05 / C13 / C14) generate over 'prod' do not change
+    "prod2": (5, LTYPES["prod"][1], (1, -1), False, _P + "(({0}, ascent::Dual({1})))", ["{v}.0.0", "{v}.0.1.0"]),
+}
+for _n, _t in COMPOSITE.items():
+    LTYPES.setdefault(_n, (_t[0], _t[1]))
+
+
+def comps(ty, c):
+    """components of the composite value with code c (None for Option's None)"""
+    _, _, dirs, opt, _, _ = COMPOSITE[ty]
+    if opt:
+        if c == 0:
+            return None
+        c -= 1
+    out = []
+    for _ in dirs:
+        out.append(c % PAIRK)
+        c //= PAIRK
+    return out[::-1]
+
+
+def mk(ty, cs):
+    if cs is None:
+        return 0
+    c = 0
+    for x in cs:
+        assert 0 <= x < PAIRK, (ty, cs)
+        c = c * PAIRK + x
+    return c + 1 if COMPOSITE[ty][3] else c
+
+
+def moved(ty, a, b):
+    """number of components in which the codes a, b of a composite type differ (None -> Some counts every component)"""
+    if ty == "prod":
+        ty = "prod2"
+    if ty not in COMPOSITE:
+        return int(a != b)
+    x, y = comps(ty, a), comps(ty, b)
+    if x is None or y is None:
+        return 0 if x == y else len(COMPOSITE[ty][2])
+    return sum(1 for u, v in zip(x, y) if u != v)
+
+
 LTY_BY_RUST = {v[1]: k for k, v in LTYPES.items()}
 
 
@@ -65,6 +137,11 @@ def join(ty, a, b):
         if a == -2 or b == -2:
             return -2
         return a if a == b else -2
+    if ty in COMPOSITE:       # the mathematical least upper bound: component-wise max / min; None is the bottom of Option
+        x, y = comps(ty, a), comps(ty, b)
+        if x is None or y is None:
+            return b if x is None else a
+        return mk(ty, [max(u, v) if d > 0 else min(u, v) for d, u, v in zip(COMPOSITE[ty][2], x, y)])
     raise KeyError(ty)
 
 
@@ -95,6 +172,12 @@ def rust_value(ty, c):
     if ty == "cp":
         B = "ascent::lattice::constant_propagation::ConstPropagation"
         return B + "::Bottom" if c == -1 else B + "::Top" if c == -2 else B + "::Constant(%du32)" % c
+    if ty in COMPOSITE:
+        cs = comps(ty, c)
+        if cs is None:
+            return "None"
+        v = COMPOSITE[ty][4].format(*["%du32" % x for x in cs])
+        return "Some(%s)" % v if COMPOSITE[ty][3] else v
     raise KeyError(ty)
 
 
@@ -136,6 +219,15 @@ def decode(ty, s):
         if s == "Top":
             return -2
         return int(re.fullmatch(r"Constant\((\d+)\)", s).group(1))
+    if ty in COMPOSITE:
+        if COMPOSITE[ty][3] and s == "None":
+            return 0
+        shape = re.sub(r"\d+", "#", s)
+        n = len(COMPOSITE[ty][2])
+        inner = "Product(%s)" % ("[" + ", ".join(["#"] * n) + "]" if "[" in COMPOSITE[ty][1] else "(" + ", ".join(["#"] * n) + ")")
+        want = "Some(%s)" % inner if COMPOSITE[ty][3] else "Reverse(%s)" % inner if "Reverse" in COMPOSITE[ty][1] else inner
+        assert shape == want, (ty, s)
+        return mk(ty, [int(x) for x in re.findall(r"\d+", s)])
     raise KeyError(ty)
 
 
@@ -259,6 +351,88 @@ PRED_SIG = {
 }
 
 
+# ------------------------------------------------------------------ component-wise vocabulary of the composite types
+# functions (op):  0 T_of(p..) -> T   1 T_id(T) -> T   2 T_step(T, p): every component c -> min(c + w, CAP)
+#                    (a component ordered downwards -> max(c - w, 0): every component moves UP in its own order)
+#                  3 T_merge(T, T): component-wise min(c + d, CAP) (None if either is None)   4 T_rot(T): components rotated left
+#                    (only where all components have the same direction)
+# predicates (op): 0 T_all_ge(T, p): every component is at least as HIGH as x in its own direction
+#                  1 T_last_hi(T): the last component is as high as 3    2 T_first_hi(T): the first one is
+def _hi(d, c, x):
+    return c >= x if d > 0 else c <= x
+
+
+def _composite_tables():
+    for k, (ty, (tid, rty, dirs, opt, ctor, acc)) in enumerate(COMPOSITE.items()):
+        n = len(dirs)
+        fb, pb = 500 + 10 * k, 600 + 10 * k
+        wrap = (lambda e: "Some(%s)" % e) if opt else (lambda e: e)
+        a_v = [t.format(v="__v") for t in acc]
+        a_u = [t.format(v="__u") for t in acc]
+        of = wrap(ctor.format(*["($%d as u32)" % i for i in range(n)]))
+        step_in = ctor.format(*[("(%s + __w).min(%d)" % (a, CAP)) if d > 0 else ("%s.saturating_sub(__w)" % a) for d, a in zip(dirs, a_v)])
+        merge_in = ctor.format(*["(%s + %s).min(%d)" % (a, b, CAP) for a, b in zip(a_v, a_u)])
+        rot_in = ctor.format(*[a_v[(i + 1) % n] for i in range(n)])
+        if opt:
+            step = "({ let __w = $1 as u32; $0.clone().map(|__v| %s) })" % step_in
+            merge = "(match ($0.clone(), $1.clone()) { (Some(__v), Some(__u)) => Some(%s), _ => None })" % merge_in
+            rot = "$0.clone().map(|__v| %s)" % rot_in
+            pred = lambda cond: "$0.clone().map_or(false, |__v| %s)" % cond
+        else:
+            step = "({ let __v = $0.clone(); let __w = $1 as u32; %s })" % step_in
+            merge = "({ let __v = $0.clone(); let __u = $1.clone(); %s })" % merge_in
+            rot = "({ let __v = $0.clone(); %s })" % rot_in
+            pred = lambda cond: "({ let __v = $0.clone(); %s })" % cond
+        cmp_ = lambda d, a, x: "%s %s %s" % (a, ">=" if d > 0 else "<=", x)
+
+        def f_of(*xs, ty=ty):
+            return mk(ty, list(xs))
+
+        def f_step(l, w, ty=ty, dirs=dirs):
+            cs = comps(ty, l)
+            return mk(ty, None if cs is None else [min(c + w, CAP) if d > 0 else max(c - w, 0) for d, c in zip(dirs, cs)])
+
+        def f_merge(a, b, ty=ty):
+            x, y = comps(ty, a), comps(ty, b)
+            return mk(ty, None if x is None or y is None else [min(u + v, CAP) for u, v in zip(x, y)])
+
+        def f_rot(l, ty=ty):
+            cs = comps(ty, l)
+            return mk(ty, None if cs is None else cs[1:] + cs[:1])
+
+        def p_all(l, x, ty=ty, dirs=dirs):
+            cs = comps(ty, l)
+            return cs is not None and all(_hi(d, c, x) for d, c in zip(dirs, cs))
+
+        def p_last(l, ty=ty, dirs=dirs):
+            cs = comps(ty, l)
+            return cs is not None and _hi(dirs[-1], cs[-1], 3)
+
+        def p_first(l, ty=ty, dirs=dirs):
+            cs = comps(ty, l)
+            return cs is not None and _hi(dirs[0], cs[0], 3)
+        FUNS[ty + "_of"] = (fb, n, of, f_of)
+        FUN_SIG[ty + "_of"] = (ty, ["p"] * n)
+        FUNS[ty + "_id"] = (fb + 1, 1, "$0.clone()", lambda l: l)
+        FUN_SIG[ty + "_id"] = (ty, [ty])
+        FUNS[ty + "_step"] = (fb + 2, 2, step, f_step)
+        FUN_SIG[ty + "_step"] = (ty, [ty, "p"])
+        FUNS[ty + "_merge"] = (fb + 3, 2, merge, f_merge)
+        FUN_SIG[ty + "_merge"] = (ty, [ty, ty])
+        if len(set(dirs)) == 1:
+            FUNS[ty + "_rot"] = (fb + 4, 1, rot, f_rot)
+            FUN_SIG[ty + "_rot"] = (ty, [ty])
+        PREDS[ty + "_all_ge"] = (pb, 2, pred(" && ".join(cmp_(d, a, "($1 as u32)") for d, a in zip(dirs, a_v))), p_all)
+        PRED_SIG[ty + "_all_ge"] = [ty, "p"]
+        PREDS[ty + "_last_hi"] = (pb + 1, 1, pred(cmp_(dirs[-1], a_v[-1], "3")), p_last)
+        PRED_SIG[ty + "_last_hi"] = [ty]
+        PREDS[ty + "_first_hi"] = (pb + 2, 1, pred(cmp_(dirs[0], a_v[0], "3")), p_first)
+        PRED_SIG[ty + "_first_hi"] = [ty]
+
+
+_composite_tables()
+
+
 # ------------------------------------------------------------------ self checks (run by the tie on every check)
 
 DOMAINS = {
@@ -274,6 +448,12 @@ DOMAINS = {
     "bset": [0, 1, 2, 3, 6, 12, -1],
     "cp": [-1, 0, 1, 2, 3, 9, -2],
 }
+for _ty, _t in COMPOSITE.items():
+    _vals = [0, 2, CAP] if len(_t[2]) == 2 else [0, CAP]
+    _dom = [[]]
+    for _ in _t[2]:
+        _dom = [d + [v] for d in _dom for v in _vals]
+    DOMAINS[_ty] = ([0] if _t[3] else []) + [mk(_ty, d) for d in _dom]
 
 
 def order(ty, a, b):
@@ -327,21 +507,21 @@ def selfcheck():
 
 
 def coq_table():
-    """(expressions, expected python values): the Coq vocabulary must compute the same codes"""
+    """(expressions, expected python values): the Coq vocabulary (LatVocab.v + LatVocabArr.v) must compute the same codes"""
     exprs, want = [], []
     for ty, (tid, _) in LTYPES.items():
         for a in DOMAINS[ty]:
             for b in DOMAINS[ty]:
-                exprs.append("lat_jm %d%%nat (%d) (%d)" % (tid, a, b))
+                exprs.append("lat2_jm %d%%nat (%d) (%d)" % (tid, a, b))
                 j = join(ty, a, b)
                 want.append((j, j != a))
     for fn, (res, sig) in FUN_SIG.items():
         for xs in _tuples(sig):
-            exprs.append("lv_fun %d%%nat [%s]" % (FUNS[fn][0], "; ".join("(%d)" % x for x in xs)))
+            exprs.append("lv2_fun %d%%nat [%s]" % (FUNS[fn][0], "; ".join("(%d)" % x for x in xs)))
             want.append(FUNS[fn][3](*xs))
     for pn, sig in PRED_SIG.items():
         for xs in _tuples(sig):
-            exprs.append("lv_pred %d%%nat [%s]" % (PREDS[pn][0], "; ".join("(%d)" % x for x in xs)))
+            exprs.append("lv2_pred %d%%nat [%s]" % (PREDS[pn][0], "; ".join("(%d)" % x for x in xs)))
             want.append(bool(PREDS[pn][3](*xs)))
     for x in DOMAINS["set"]:
         exprs.append("lv_gen 2%%nat [(%d)]" % x)
